@@ -46,42 +46,24 @@ theorem lastWrite_append (c : Val) (xs ys : List PAct) :
 
 /-! ### the world -/
 
-/-- every bound request points to an allocated holder, and no two requests share one. -/
-structure Inv (w : World) : Prop where
-  bound : ∀ q a, w.env q = some a → a < w.heap.length
-  inj : ∀ q q' a, w.env q = some a → w.env q' = some a → q = q'
+@[simp] theorem upd_self (f : Nat → Option Ctx) (r : Nat) (c : Option Ctx) : upd f r c r = c := by
+  simp [upd]
 
-theorem Inv_init : Inv World.init :=
-  ⟨by intro q a h; simp [World.init] at h, by intro q q' a h; simp [World.init] at h⟩
+theorem upd_ne (f : Nat → Option Ctx) (r q : Nat) (c : Option Ctx) (h : q ≠ r) :
+    upd f r c q = f q := by
+  simp [upd, h]
 
-theorem Inv_step (w : World) (r : Nat) (s : GStep) (h : Inv w) : Inv (stepWorld w r s).1 := by
-  cases s with
-  | begin =>
-    refine ⟨?_, ?_⟩
-    · intro q a hq
-      simp only [stepWorld] at hq ⊢
-      simp only [List.length_append, List.length_cons, List.length_nil]
-      by_cases hqr : q = r
-      · simp [hqr] at hq; omega
-      · simp [hqr] at hq; have := h.bound q a hq; omega
-    · intro q q' a hq hq'
-      simp only [stepWorld] at hq hq'
-      by_cases hqr : q = r <;> by_cases hqr' : q' = r
-      · rw [hqr, hqr']
-      · simp [hqr] at hq; simp [hqr'] at hq'
-        have := h.bound q' a hq'; omega
-      · simp [hqr] at hq; simp [hqr'] at hq'
-        have := h.bound q a hq; omega
-      · simp [hqr] at hq; simp [hqr'] at hq'
-        exact h.inj q q' a hq hq'
-  | act a =>
-    simp only [stepWorld]
-    cases he : w.env r with
-    | none => simpa using h
-    | some addr =>
-      refine ⟨?_, ?_⟩
-      · intro q b hq; simp at hq ⊢; exact h.bound q b hq
-      · intro q q' b hq hq'; simp at hq hq'; exact h.inj q q' b hq hq'
+theorem newBatchContext_fresh (impl : Impl) (hf : impl.alloc = .fresh) (heap : List Val)
+    (parent : Ctx) :
+    newBatchContext impl heap parent = (heap ++ [0], .batch heap.length :: parent) := by
+  simp [newBatchContext, hf]
+
+theorem getD_append_left (l : List Val) (a : Nat) (h : a < l.length) (x : Val) :
+    (l ++ [x]).getD a 0 = l.getD a 0 := by
+  simp [List.getD_eq_getElem?_getD, List.getElem?_append_left h]
+
+theorem getD_append_new (l : List Val) (x : Val) : (l ++ [x]).getD l.length 0 = x := by
+  simp [List.getD_eq_getElem?_getD]
 
 theorem proj_cons_self (r : Nat) (s : GStep) (rest : List (Nat × GStep)) :
     proj r ((r, s) :: rest) = s :: proj r rest := by
@@ -95,114 +77,594 @@ theorem obsOf_append (r : Nat) (xs ys : List (Nat × Obs)) :
     obsOf r (xs ++ ys) = obsOf r xs ++ obsOf r ys := by
   simp [obsOf]
 
-/-- a step of another request leaves `r`'s binding and holder untouched. -/
-theorem step_other (w : World) (r q a : Nat) (s : GStep) (hinv : Inv w) (hr : w.env r = some a)
-    (hq : q ≠ r) :
-    (stepWorld w q s).1.env r = some a ∧ (stepWorld w q s).1.heap.getD a 0 = w.heap.getD a 0 := by
-  have ha := hinv.bound r a hr
-  cases s with
-  | begin =>
-    simp only [stepWorld]
-    have : r ≠ q := fun h => hq h.symm
-    refine ⟨by simp [this, hr], ?_⟩
-    simp [List.getD_eq_getElem?_getD, List.getElem?_append_left ha]
-  | act x =>
-    simp only [stepWorld]
-    cases he : w.env q with
-    | none => exact ⟨hr, rfl⟩
-    | some b =>
-      have hba : b ≠ a := fun h => hq (hinv.inj q r a (h ▸ he) hr)
-      refine ⟨hr, ?_⟩
-      simp [List.getD_eq_getElem?_getD, List.getElem?_set_ne hba]
-
-/-- a step of another request does not bind `r`. -/
-theorem step_other_unbound (w : World) (r q : Nat) (s : GStep) (hr : w.env r = none) (hq : q ≠ r) :
-    (stepWorld w q s).1.env r = none := by
-  cases s with
-  | begin =>
-    have : r ≠ q := fun h => hq h.symm
-    simp [stepWorld, this, hr]
-  | act x =>
-    simp only [stepWorld]
-    cases he : w.env q <;> simp [hr]
-
 theorem obsOf_step_other (r q : Nat) (o : Option Obs) (os : List (Nat × Obs)) (hq : q ≠ r) :
     obsOf r (o.toList.map (fun v => (q, v)) ++ os) = obsOf r os := by
   cases o <;> simp [obsOf, hq]
 
-/-- Request `r`, already bound to holder `a`, performs the accesses `as` somewhere inside the
-    schedule: it observes what it would observe alone on a cell with the same content. -/
-theorem runWorld_bound (sched : List (Nat × GStep)) (w : World) (r a : Nat) (as : List PAct)
-    (hinv : Inv w) (hr : w.env r = some a) (hproj : proj r sched = as.map GStep.act) :
-    obsOf r (runWorld w sched).2 = (runActs (w.heap.getD a 0) as).2.map Obs.val := by
-  induction sched generalizing w as with
+theorem obsOf_step_self (r : Nat) (o : Option Obs) (os : List (Nat × Obs)) :
+    obsOf r (o.toList.map (fun v => (r, v)) ++ os) = o.toList ++ obsOf r os := by
+  cases o <;> simp [obsOf]
+
+/-- a step of another request never touches the contexts of `r`. -/
+theorem step_ctx_other (impl : Impl) (w : World) (r q : Nat) (s : GStep) (hq : q ≠ r) :
+    (stepWorld impl w q s).1.base r = w.base r ∧ (stepWorld impl w q s).1.cur r = w.cur r := by
+  have hrq : r ≠ q := fun h => hq h.symm
+  cases s with
+  | enter p =>
+    simp only [stepWorld]
+    split <;> simp [upd_ne _ _ _ _ hrq]
+  | wrap k =>
+    simp only [stepWorld]
+    split <;> simp [upd_ne _ _ _ _ hrq]
+  | core =>
+    simp only [stepWorld]
+    split
+    · simp
+    · split <;> simp [upd_ne _ _ _ _ hrq]
+  | act a =>
+    simp only [stepWorld]
+    split <;> simp
+
+/-- with fresh allocation the heap only grows … -/
+theorem step_len_mono (impl : Impl) (hf : impl.alloc = .fresh) (w : World) (q : Nat) (s : GStep) :
+    w.heap.length ≤ (stepWorld impl w q s).1.heap.length := by
+  cases s with
+  | enter p =>
+    simp only [stepWorld]
+    split
+    · simp [newBatchContext_fresh impl hf]
+    · simp
+  | wrap k => simp only [stepWorld]; split <;> simp
+  | core =>
+    simp only [stepWorld]
+    split
+    · simp
+    · split
+      · simp [newBatchContext_fresh impl hf]
+      · simp
+  | act a =>
+    simp only [stepWorld]
+    split <;> simp
+
+/-- … and a step changes the content of an allocated holder only if it is an access through the
+    holder bound in the context of the request that performs it. -/
+theorem step_heap_other (impl : Impl) (hf : impl.alloc = .fresh) (w : World) (q a : Nat) (s : GStep)
+    (ha : a < w.heap.length) (hne : (w.cur q).bind holder ≠ some a) :
+    (stepWorld impl w q s).1.heap.getD a 0 = w.heap.getD a 0 := by
+  cases s with
+  | enter p =>
+    simp only [stepWorld]
+    split
+    · simp [newBatchContext_fresh impl hf, List.getElem?_append_left ha]
+    · simp
+  | wrap k => simp only [stepWorld]; split <;> simp
+  | core =>
+    simp only [stepWorld]
+    split
+    · simp
+    · split
+      · simp [newBatchContext_fresh impl hf, List.getElem?_append_left ha]
+      · simp
+  | act x =>
+    simp only [stepWorld]
+    cases he : (w.cur q).bind holder with
+    | none => simp
+    | some b =>
+      have hba : b ≠ a := fun h => hne (by rw [he, h])
+      simp [List.getD_eq_getElem?_getD, List.getElem?_set_ne hba]
+
+/-- an access of request `r` through its holder `a`. -/
+theorem step_act_self (impl : Impl) (w : World) (r a : Nat) (x : PAct)
+    (hr : (w.cur r).bind holder = some a) :
+    stepWorld impl w r (.act x) =
+      ({ w with heap := w.heap.set a (stepCell (w.heap.getD a 0) x).1 },
+        (stepCell (w.heap.getD a 0) x).2.map Obs.val) := by
+  simp [stepWorld, hr]
+
+/-! #### what a request observes, as a function of its own remaining steps -/
+
+/-- the own steps are those of a call of `HandleRequest` that has already started (`started`: a run
+    is in progress): no second `enter`, and accesses only inside a run. -/
+def wellStarted : Bool → List GStep → Bool
+  | _, [] => true
+  | st, .act _ :: ps => st && wellStarted st ps
+  | _, .core :: ps => wellStarted true ps
+  | st, .wrap _ :: ps => wellStarted st ps
+  | _, .enter _ :: _ => false
+
+/-- `atCore`: every run starts on a new, empty holder. -/
+def expectCore : Val → List GStep → List Val
+  | _, [] => []
+  | v, .act a :: ps => (stepCell v a).2.toList ++ expectCore (stepCell v a).1 ps
+  | _, .core :: ps => expectCore 0 ps
+  | v, _ :: ps => expectCore v ps
+
+/-- entry only: the runs of one call share the holder made by `HandleRequest`. -/
+def expectEntry : Val → List GStep → List Val
+  | _, [] => []
+  | v, .act a :: ps => (stepCell v a).2.toList ++ expectEntry (stepCell v a).1 ps
+  | v, _ :: ps => expectEntry v ps
+
+theorem expectCore_acts (v : Val) (as : List PAct) (ps : List GStep) :
+    expectCore v (as.map .act ++ ps) = (runActs v as).2 ++ expectCore (runActs v as).1 ps := by
+  induction as generalizing v with
+  | nil => simp [runActs]
+  | cons a as ih => simp [expectCore, runActs, ih, List.append_assoc]
+
+theorem expectEntry_acts (v : Val) (as : List PAct) (ps : List GStep) :
+    expectEntry v (as.map .act ++ ps) = (runActs v as).2 ++ expectEntry (runActs v as).1 ps := by
+  induction as generalizing v with
+  | nil => simp [runActs]
+  | cons a as ih => simp [expectEntry, runActs, ih, List.append_assoc]
+
+theorem expectCore_wraps (v : Val) (ws : List Nat) (ps : List GStep) :
+    expectCore v (ws.map .wrap ++ ps) = expectCore v ps := by
+  induction ws with
+  | nil => rfl
+  | cons k ws ih => simpa [expectCore] using ih
+
+theorem expectEntry_wraps (v : Val) (ws : List Nat) (ps : List GStep) :
+    expectEntry v (ws.map .wrap ++ ps) = expectEntry v ps := by
+  induction ws with
+  | nil => rfl
+  | cons k ws ih => simpa [expectEntry] using ih
+
+theorem expectCore_runs (v : Val) (runs : List Run) :
+    expectCore v (runsSteps runs) = soloRuns runs := by
+  induction runs generalizing v with
+  | nil => simp [runsSteps, expectCore, soloRuns]
+  | cons rn rest ih =>
+    simp only [runsSteps, runSteps, List.append_assoc, List.cons_append]
+    rw [expectCore_wraps]
+    simp only [expectCore]
+    rw [expectCore_acts, ih]
+    simp [soloRuns, solo]
+
+theorem expectEntry_runs (v : Val) (runs : List Run) :
+    expectEntry v (runsSteps runs) = (runActs v (runs.map (·.acts)).flatten).2 := by
+  induction runs generalizing v with
+  | nil => simp [runsSteps, expectEntry, runActs]
+  | cons rn rest ih =>
+    simp only [runsSteps, runSteps, List.append_assoc, List.cons_append]
+    rw [expectEntry_wraps]
+    simp only [expectEntry]
+    rw [expectEntry_acts, ih]
+    simp [runActs_append]
+
+theorem wellStarted_acts (as : List PAct) (ps : List GStep) :
+    wellStarted true (as.map .act ++ ps) = wellStarted true ps := by
+  induction as with
+  | nil => rfl
+  | cons a as ih => simpa [wellStarted] using ih
+
+theorem wellStarted_wraps (st : Bool) (ws : List Nat) (ps : List GStep) :
+    wellStarted st (ws.map .wrap ++ ps) = wellStarted st ps := by
+  induction ws with
+  | nil => rfl
+  | cons k ws ih => simpa [wellStarted] using ih
+
+theorem wellStarted_runs (st : Bool) (runs : List Run) : wellStarted st (runsSteps runs) = true := by
+  induction runs generalizing st with
+  | nil => simp [runsSteps, wellStarted]
+  | cons rn rest ih =>
+    simp only [runsSteps, runSteps, List.append_assoc, List.cons_append]
+    rw [wellStarted_wraps]
+    simp only [wellStarted]
+    rw [wellStarted_acts, ih]
+
+theorem obsOf_no_steps (impl : Impl) (r : Nat) (sched : List (Nat × GStep)) (w : World)
+    (h : proj r sched = []) : obsOf r (runWorld impl w sched).2 = [] := by
+  induction sched generalizing w with
+  | nil => simp [runWorld, obsOf]
+  | cons e rest ih =>
+    obtain ⟨q, s⟩ := e
+    by_cases hq : q = r
+    · subst hq; rw [proj_cons_self] at h; cases h
+    · rw [proj_cons_ne r q s rest hq] at h
+      simp only [runWorld]
+      rw [obsOf_step_other r q _ _ hq]
+      exact ih _ h
+
+/-! #### `atCore`: one holder per run -/
+
+/-- the holders the handlers currently hold are allocated, and no two requests hold the same. -/
+structure InvC (w : World) : Prop where
+  bound : ∀ q a, (w.cur q).bind holder = some a → a < w.heap.length
+  inj : ∀ q q' a, (w.cur q).bind holder = some a → (w.cur q').bind holder = some a → q = q'
+
+theorem InvC_init : InvC World.init :=
+  ⟨by intro q a h; simp [World.init] at h, by intro q q' a h; simp [World.init] at h⟩
+
+theorem InvC_step (impl : Impl) (hf : impl.alloc = .fresh) (hc : impl.atCore = true) (w : World)
+    (r : Nat) (s : GStep) (h : InvC w) : InvC (stepWorld impl w r s).1 := by
+  have hmono := step_len_mono impl hf w r s
+  -- steps other than `core` and `enter` of `r` leave every `cur` alone
+  cases s with
+  | enter p =>
+    have hcur : ∀ q, (stepWorld impl w r (.enter p)).1.cur q = upd w.cur r none q := by
+      intro q; simp only [stepWorld]; split <;> rfl
+    refine ⟨?_, ?_⟩
+    · intro q a hq
+      rw [hcur] at hq
+      by_cases hqr : q = r
+      · subst hqr; simp at hq
+      · rw [upd_ne _ _ _ _ hqr] at hq
+        exact Nat.lt_of_lt_of_le (h.bound q a hq) hmono
+    · intro q q' a hq hq'
+      rw [hcur] at hq hq'
+      by_cases hqr : q = r
+      · subst hqr; simp at hq
+      · by_cases hqr' : q' = r
+        · subst hqr'; simp at hq'
+        · rw [upd_ne _ _ _ _ hqr] at hq; rw [upd_ne _ _ _ _ hqr'] at hq'
+          exact h.inj q q' a hq hq'
+  | wrap k =>
+    have hw : (stepWorld impl w r (.wrap k)).1.cur = w.cur ∧
+        (stepWorld impl w r (.wrap k)).1.heap = w.heap := by
+      simp only [stepWorld]; split <;> simp
+    exact ⟨by rw [hw.1, hw.2]; exact h.bound, by rw [hw.1]; exact h.inj⟩
+  | core =>
+    cases hb : w.base r with
+    | none =>
+      have : (stepWorld impl w r .core).1 = w := by simp [stepWorld, hb]
+      rw [this]; exact h
+    | some b =>
+      have hstep : (stepWorld impl w r .core).1 =
+          { w with heap := w.heap ++ [0], cur := upd w.cur r (some (.batch w.heap.length :: b)) } := by
+        simp [stepWorld, hb, hc, newBatchContext_fresh impl hf]
+      rw [hstep]
+      refine ⟨?_, ?_⟩
+      · intro q a hq
+        simp only [List.length_append, List.length_cons, List.length_nil] at hq ⊢
+        by_cases hqr : q = r
+        · subst hqr; simp [holder] at hq; omega
+        · rw [upd_ne _ _ _ _ hqr] at hq
+          have := h.bound q a hq; omega
+      · intro q q' a hq hq'
+        simp only at hq hq'
+        by_cases hqr : q = r <;> by_cases hqr' : q' = r
+        · rw [hqr, hqr']
+        · subst hqr; simp [holder] at hq
+          rw [upd_ne _ _ _ _ hqr'] at hq'
+          have := h.bound q' a hq'; omega
+        · subst hqr'; simp [holder] at hq'
+          rw [upd_ne _ _ _ _ hqr] at hq
+          have := h.bound q a hq; omega
+        · rw [upd_ne _ _ _ _ hqr] at hq; rw [upd_ne _ _ _ _ hqr'] at hq'
+          exact h.inj q q' a hq hq'
+  | act x =>
+    have hw : (stepWorld impl w r (.act x)).1.cur = w.cur ∧
+        (stepWorld impl w r (.act x)).1.heap.length = w.heap.length := by
+      simp only [stepWorld]; split <;> simp
+    exact ⟨by rw [hw.1, hw.2]; exact h.bound, by rw [hw.1]; exact h.inj⟩
+
+/-- the content of the holder a request's handlers currently hold (`""` when there is none). -/
+def curVal (w : World) (r : Nat) : Val :=
+  match (w.cur r).bind holder with
+  | some a => w.heap.getD a 0
+  | none => 0
+
+/-- a step of another request does not change what `r`'s handlers hold. -/
+theorem curVal_step_other (impl : Impl) (hf : impl.alloc = .fresh) (w : World) (r q : Nat)
+    (s : GStep) (hinv : InvC w) (hq : q ≠ r) :
+    curVal (stepWorld impl w q s).1 r = curVal w r := by
+  have hctx := (step_ctx_other impl w r q s hq).2
+  simp only [curVal, hctx]
+  cases hr : (w.cur r).bind holder with
+  | none => rfl
+  | some a =>
+    simp only
+    apply step_heap_other impl hf w q a s (hinv.bound r a hr)
+    intro hqa
+    exact hq (hinv.inj q r a hqa hr)
+
+/-- MAIN LEMMA (`atCore`). Request `r` has been entered; its remaining own steps inside the
+    schedule are `ps`: whatever the other requests do, it observes `expectCore` of them. -/
+theorem runWorld_core (impl : Impl) (hf : impl.alloc = .fresh) (hc : impl.atCore = true) (r : Nat)
+    (sched : List (Nat × GStep)) (w : World) (ps : List GStep) (hinv : InvC w)
+    (hb : (w.base r).isSome = true)
+    (hws : wellStarted ((w.cur r).bind holder).isSome ps = true) (hproj : proj r sched = ps) :
+    obsOf r (runWorld impl w sched).2 = (expectCore (curVal w r) ps).map Obs.val := by
+  induction sched generalizing w ps with
   | nil =>
-    cases as with
-    | nil => simp [runWorld, obsOf, runActs]
-    | cons x xs => simp [proj] at hproj
+    simp [proj] at hproj; subst hproj
+    simp [runWorld, obsOf, expectCore]
   | cons e rest ih =>
     obtain ⟨q, s⟩ := e
     by_cases hq : q = r
     · subst hq
       rw [proj_cons_self] at hproj
-      cases as with
-      | nil => simp at hproj
-      | cons x xs =>
-        simp only [List.map_cons, List.cons.injEq] at hproj
-        obtain ⟨hs, hrest⟩ := hproj
-        subst hs
-        have ha := hinv.bound q a hr
-        have hinv' := Inv_step w q (.act x) hinv
-        simp only [runWorld]
-        rw [obsOf_append]
-        have hstep : stepWorld w q (.act x) =
-            ({ w with heap := w.heap.set a (stepCell (w.heap.getD a 0) x).1 },
-              (stepCell (w.heap.getD a 0) x).2.map Obs.val) := by
-          simp [stepWorld, hr]
+      subst hproj
+      simp only [runWorld]
+      rw [obsOf_step_self]
+      have hinv' := InvC_step impl hf hc w q s hinv
+      cases s with
+      | enter p => simp [wellStarted] at hws
+      | wrap k =>
+        obtain ⟨b, hbb⟩ := Option.isSome_iff_exists.mp hb
+        have hstep : stepWorld impl w q (.wrap k) =
+            ({ w with base := upd w.base q (some (.other k :: b)) }, none) := by
+          simp [stepWorld, hbb]
         rw [hstep] at hinv' ⊢
-        simp only
-        have hget : (w.heap.set a (stepCell (w.heap.getD a 0) x).1).getD a 0 =
+        simp only [Option.toList_none, List.nil_append, expectCore]
+        exact ih _ _ hinv' (by simp) (by simpa [wellStarted] using hws) rfl
+      | core =>
+        obtain ⟨b, hbb⟩ := Option.isSome_iff_exists.mp hb
+        have hstep : stepWorld impl w q .core =
+            ({ w with heap := w.heap ++ [0],
+                      cur := upd w.cur q (some (.batch w.heap.length :: b)) }, none) := by
+          simp [stepWorld, hbb, hc, newBatchContext_fresh impl hf]
+        rw [hstep] at hinv' ⊢
+        simp only [Option.toList_none, List.nil_append, expectCore]
+        have hcv : curVal (⟨w.heap ++ [0], w.base, upd w.cur q (some (.batch w.heap.length :: b))⟩ : World) q = 0 := by
+          simp [curVal, holder]
+        rw [ih _ _ hinv' (by simpa using hb) (by simpa [wellStarted, holder] using hws) rfl, hcv]
+      | act x =>
+        simp only [wellStarted, Bool.and_eq_true] at hws
+        obtain ⟨a, ha⟩ := Option.isSome_iff_exists.mp hws.1
+        have hal := hinv.bound q a ha
+        rw [step_act_self impl w q a x ha] at hinv' ⊢
+        have hcv : curVal w q = w.heap.getD a 0 := by simp [curVal, ha]
+        have hcv' : curVal ({ w with heap := w.heap.set a (stepCell (w.heap.getD a 0) x).1 } : World) q =
             (stepCell (w.heap.getD a 0) x).1 := by
-          simp [List.getD_eq_getElem?_getD, List.getElem?_set_self ha]
-        rw [ih _ xs hinv' hr hrest]
-        simp only [hget, runActs]
-        cases (stepCell (w.heap.getD a 0) x).2 <;> simp [obsOf]
+          simp [curVal, ha, List.getD_eq_getElem?_getD, List.getElem?_set_self hal]
+        simp only [expectCore, hcv, List.map_append]
+        rw [ih _ _ hinv' (by simpa using hb) (by simpa [ha] using hws.2) rfl, hcv']
+        cases (stepCell (w.heap.getD a 0) x).2 <;> simp
     · rw [proj_cons_ne r q s rest hq] at hproj
       simp only [runWorld]
       rw [obsOf_step_other r q _ _ hq]
-      have hinv' := Inv_step w q s hinv
-      obtain ⟨henv, hheap⟩ := step_other w r q a s hinv hr hq
-      rw [ih _ as hinv' henv hproj, hheap]
+      have hctx := step_ctx_other impl w r q s hq
+      rw [ih _ ps (InvC_step impl hf hc w q s hinv) (by rw [hctx.1]; exact hb)
+        (by rw [hctx.2]; exact hws) hproj, curVal_step_other impl hf w r q s hinv hq]
 
-/-- Request `r`, not yet started, runs `prog as` inside the schedule: it observes what it observes
-    alone (its holder is freshly allocated by its `begin`). -/
-theorem runWorld_fresh (sched : List (Nat × GStep)) (w : World) (r : Nat) (as : List PAct)
-    (hinv : Inv w) (hr : w.env r = none) (hproj : proj r sched = prog as) :
-    obsOf r (runWorld w sched).2 = (solo as).map Obs.val := by
+/-- a request that has not been entered yet, running `enter p :: ps` inside the schedule. -/
+theorem runWorld_core_start (impl : Impl) (hf : impl.alloc = .fresh) (hc : impl.atCore = true)
+    (r : Nat) (sched : List (Nat × GStep)) (w : World) (p : Parent) (ps : List GStep)
+    (hinv : InvC w) (hws : wellStarted false ps = true) (hproj : proj r sched = .enter p :: ps) :
+    obsOf r (runWorld impl w sched).2 = (expectCore 0 ps).map Obs.val := by
   induction sched generalizing w with
-  | nil => simp [proj, prog] at hproj
+  | nil => simp [proj] at hproj
   | cons e rest ih =>
     obtain ⟨q, s⟩ := e
     by_cases hq : q = r
     · subst hq
       rw [proj_cons_self] at hproj
-      simp only [prog, List.cons.injEq] at hproj
+      simp only [List.cons.injEq] at hproj
       obtain ⟨hs, hrest⟩ := hproj
       subst hs
       simp only [runWorld]
-      have hinv' := Inv_step w q .begin hinv
-      have henv : (stepWorld w q .begin).1.env q = some w.heap.length := by simp [stepWorld]
-      have hheap : (stepWorld w q .begin).1.heap.getD w.heap.length 0 = 0 := by
-        simp [stepWorld, List.getD_eq_getElem?_getD]
-      have hobs : (stepWorld w q .begin).2 = none := by simp [stepWorld]
+      rw [obsOf_step_self]
+      have hinv' := InvC_step impl hf hc w q (.enter p) hinv
+      have hobs : (stepWorld impl w q (.enter p)).2 = none := by
+        simp only [stepWorld]; split <;> rfl
+      have hcur : (stepWorld impl w q (.enter p)).1.cur q = none := by
+        simp only [stepWorld]; split <;> simp
+      have hbase : ((stepWorld impl w q (.enter p)).1.base q).isSome = true := by
+        simp only [stepWorld]; split <;> simp
       rw [hobs]
-      simp only [Option.toList_none, List.map_nil, List.nil_append]
-      rw [runWorld_bound rest _ q _ as hinv' henv hrest, hheap]
-      rfl
+      simp only [Option.toList_none, List.nil_append]
+      rw [runWorld_core impl hf hc q rest _ ps hinv' hbase (by simpa [hcur] using hws) hrest]
+      simp [curVal, hcur]
     · rw [proj_cons_ne r q s rest hq] at hproj
       simp only [runWorld]
       rw [obsOf_step_other r q _ _ hq]
-      exact ih _ (Inv_step w q s hinv) (step_other_unbound w r q s hr hq) hproj
+      exact ih _ (InvC_step impl hf hc w q s hinv) hproj
+
+/-! #### entry only: one holder per call of `HandleRequest` -/
+
+/-- the holders made by `HandleRequest` are allocated, no two requests have the same, and the
+    context the handlers hold reaches the holder of their own request. -/
+structure InvE (w : World) : Prop where
+  bound : ∀ q a, (w.base q).bind holder = some a → a < w.heap.length
+  inj : ∀ q q' a, (w.base q).bind holder = some a → (w.base q').bind holder = some a → q = q'
+  same : ∀ q c, w.cur q = some c → holder c = (w.base q).bind holder
+
+theorem InvE_init : InvE World.init :=
+  ⟨by intro q a h; simp [World.init] at h, by intro q q' a h; simp [World.init] at h,
+   by intro q c h; simp [World.init] at h⟩
+
+theorem InvE_step (impl : Impl) (hf : impl.alloc = .fresh) (he : impl.atEntry = true)
+    (hc : impl.atCore = false) (w : World) (r : Nat) (s : GStep) (h : InvE w) :
+    InvE (stepWorld impl w r s).1 := by
+  cases s with
+  | enter p =>
+    have hstep : (stepWorld impl w r (.enter p)).1 =
+        { heap := w.heap ++ [0],
+          base := upd w.base r (some (.batch w.heap.length ::
+            parentCtx w p)),
+          cur := upd w.cur r none } := by
+      simp [stepWorld, he, newBatchContext_fresh impl hf]
+    rw [hstep]
+    refine ⟨?_, ?_, ?_⟩
+    · intro q a hq
+      simp only [List.length_append, List.length_cons, List.length_nil] at hq ⊢
+      by_cases hqr : q = r
+      · subst hqr; simp [holder] at hq; omega
+      · rw [upd_ne _ _ _ _ hqr] at hq
+        have := h.bound q a hq; omega
+    · intro q q' a hq hq'
+      simp only at hq hq'
+      by_cases hqr : q = r <;> by_cases hqr' : q' = r
+      · rw [hqr, hqr']
+      · subst hqr; simp [holder] at hq
+        rw [upd_ne _ _ _ _ hqr'] at hq'
+        have := h.bound q' a hq'; omega
+      · subst hqr'; simp [holder] at hq'
+        rw [upd_ne _ _ _ _ hqr] at hq
+        have := h.bound q a hq; omega
+      · rw [upd_ne _ _ _ _ hqr] at hq; rw [upd_ne _ _ _ _ hqr'] at hq'
+        exact h.inj q q' a hq hq'
+    · intro q c hq
+      simp only at hq ⊢
+      by_cases hqr : q = r
+      · subst hqr; simp at hq
+      · rw [upd_ne _ _ _ _ hqr] at hq ⊢
+        exact h.same q c hq
+  | wrap k =>
+    cases hb : w.base r with
+    | none =>
+      have : (stepWorld impl w r (.wrap k)).1 = w := by simp [stepWorld, hb]
+      rw [this]; exact h
+    | some b =>
+      have hstep : (stepWorld impl w r (.wrap k)).1 =
+          { w with base := upd w.base r (some (.other k :: b)) } := by
+        simp [stepWorld, hb]
+      rw [hstep]
+      have hbase : ∀ q, (upd w.base r (some (.other k :: b)) q).bind holder =
+          (w.base q).bind holder := by
+        intro q
+        by_cases hqr : q = r
+        · subst hqr; simp [holder, hb]
+        · rw [upd_ne _ _ _ _ hqr]
+      refine ⟨?_, ?_, ?_⟩
+      · intro q a hq; simp only [hbase] at hq; exact h.bound q a hq
+      · intro q q' a hq hq'; simp only [hbase] at hq hq'; exact h.inj q q' a hq hq'
+      · intro q c hq; simp only [hbase]; exact h.same q c hq
+  | core =>
+    cases hb : w.base r with
+    | none =>
+      have : (stepWorld impl w r .core).1 = w := by simp [stepWorld, hb]
+      rw [this]; exact h
+    | some b =>
+      have hstep : (stepWorld impl w r .core).1 = { w with cur := upd w.cur r (some b) } := by
+        simp [stepWorld, hb, hc]
+      rw [hstep]
+      refine ⟨h.bound, h.inj, ?_⟩
+      intro q c hq
+      simp only at hq ⊢
+      by_cases hqr : q = r
+      · subst hqr; simp at hq; subst hq; simp [hb]
+      · rw [upd_ne _ _ _ _ hqr] at hq
+        exact h.same q c hq
+  | act x =>
+    have hw : (stepWorld impl w r (.act x)).1.cur = w.cur ∧
+        (stepWorld impl w r (.act x)).1.base = w.base ∧
+        (stepWorld impl w r (.act x)).1.heap.length = w.heap.length := by
+      simp only [stepWorld]; split <;> simp
+    exact ⟨by rw [hw.2.1, hw.2.2]; exact h.bound, by rw [hw.2.1]; exact h.inj,
+      by rw [hw.1, hw.2.1]; exact h.same⟩
+
+/-- the content of the holder made by `HandleRequest` for request `r`. -/
+def baseVal (w : World) (r : Nat) : Val :=
+  match (w.base r).bind holder with
+  | some a => w.heap.getD a 0
+  | none => 0
+
+theorem baseVal_step_other (impl : Impl) (hf : impl.alloc = .fresh) (w : World) (r q : Nat)
+    (s : GStep) (hinv : InvE w) (hq : q ≠ r) :
+    baseVal (stepWorld impl w q s).1 r = baseVal w r := by
+  have hctx := (step_ctx_other impl w r q s hq).1
+  simp only [baseVal, hctx]
+  cases hr : (w.base r).bind holder with
+  | none => rfl
+  | some a =>
+    simp only
+    apply step_heap_other impl hf w q a s (hinv.bound r a hr)
+    intro hqa
+    cases hcq : w.cur q with
+    | none => simp [hcq] at hqa
+    | some c =>
+      have := hinv.same q c hcq
+      simp only [hcq, Option.bind_some] at hqa
+      rw [this] at hqa
+      exact hq (hinv.inj q r a hqa hr)
+
+/-- MAIN LEMMA (entry only). -/
+theorem runWorld_entry (impl : Impl) (hf : impl.alloc = .fresh) (he : impl.atEntry = true)
+    (hc : impl.atCore = false) (r : Nat) (sched : List (Nat × GStep)) (w : World)
+    (ps : List GStep) (hinv : InvE w) (hb : ((w.base r).bind holder).isSome = true)
+    (hws : wellStarted (w.cur r).isSome ps = true) (hproj : proj r sched = ps) :
+    obsOf r (runWorld impl w sched).2 = (expectEntry (baseVal w r) ps).map Obs.val := by
+  induction sched generalizing w ps with
+  | nil =>
+    simp [proj] at hproj; subst hproj
+    simp [runWorld, obsOf, expectEntry]
+  | cons e rest ih =>
+    obtain ⟨q, s⟩ := e
+    by_cases hq : q = r
+    · subst hq
+      rw [proj_cons_self] at hproj
+      subst hproj
+      simp only [runWorld]
+      rw [obsOf_step_self]
+      have hinv' := InvE_step impl hf he hc w q s hinv
+      obtain ⟨a, ha⟩ := Option.isSome_iff_exists.mp hb
+      cases hbb : w.base q with
+      | none => simp [hbb] at ha
+      | some b =>
+      have hab : holder b = some a := by simpa [hbb] using ha
+      cases s with
+      | enter p => simp [wellStarted] at hws
+      | wrap k =>
+        have hstep : stepWorld impl w q (.wrap k) =
+            ({ w with base := upd w.base q (some (.other k :: b)) }, none) := by
+          simp [stepWorld, hbb]
+        rw [hstep] at hinv' ⊢
+        simp only [Option.toList_none, List.nil_append, expectEntry]
+        have hbv : baseVal ({ w with base := upd w.base q (some (.other k :: b)) } : World) q = baseVal w q := by
+          simp [baseVal, holder, hbb]
+        rw [ih _ _ hinv' (by simp [holder, hab]) (by simpa [wellStarted] using hws) rfl, hbv]
+      | core =>
+        have hstep : stepWorld impl w q .core = ({ w with cur := upd w.cur q (some b) }, none) := by
+          simp [stepWorld, hbb, hc]
+        rw [hstep] at hinv' ⊢
+        simp only [Option.toList_none, List.nil_append, expectEntry]
+        have hbv : baseVal ({ w with cur := upd w.cur q (some b) } : World) q = baseVal w q := rfl
+        rw [ih _ _ hinv' (by simpa using hb) (by simpa [wellStarted] using hws) rfl, hbv]
+      | act x =>
+        simp only [wellStarted, Bool.and_eq_true] at hws
+        obtain ⟨c, hcc⟩ := Option.isSome_iff_exists.mp hws.1
+        have hca : (w.cur q).bind holder = some a := by
+          rw [hcc, Option.bind_some, hinv.same q c hcc, hbb]; exact hab
+        have hal := hinv.bound q a ha
+        rw [step_act_self impl w q a x hca] at hinv' ⊢
+        have hbv : baseVal w q = w.heap.getD a 0 := by simp [baseVal, ha]
+        have hbv' : baseVal ({ w with heap := w.heap.set a (stepCell (w.heap.getD a 0) x).1 } : World) q =
+            (stepCell (w.heap.getD a 0) x).1 := by
+          simp [baseVal, ha, List.getD_eq_getElem?_getD, List.getElem?_set_self hal]
+        simp only [expectEntry, hbv, List.map_append]
+        rw [ih _ _ hinv' (by simpa using hb) (by simpa [hcc] using hws.2) rfl, hbv']
+        cases (stepCell (w.heap.getD a 0) x).2 <;> simp
+    · rw [proj_cons_ne r q s rest hq] at hproj
+      simp only [runWorld]
+      rw [obsOf_step_other r q _ _ hq]
+      have hctx := step_ctx_other impl w r q s hq
+      rw [ih _ ps (InvE_step impl hf he hc w q s hinv) (by rw [hctx.1]; exact hb)
+        (by rw [hctx.2]; exact hws) hproj, baseVal_step_other impl hf w r q s hinv hq]
+
+theorem runWorld_entry_start (impl : Impl) (hf : impl.alloc = .fresh) (he : impl.atEntry = true)
+    (hc : impl.atCore = false) (r : Nat) (sched : List (Nat × GStep)) (w : World) (p : Parent)
+    (ps : List GStep) (hinv : InvE w) (hws : wellStarted false ps = true)
+    (hproj : proj r sched = .enter p :: ps) :
+    obsOf r (runWorld impl w sched).2 = (expectEntry 0 ps).map Obs.val := by
+  induction sched generalizing w with
+  | nil => simp [proj] at hproj
+  | cons e rest ih =>
+    obtain ⟨q, s⟩ := e
+    by_cases hq : q = r
+    · subst hq
+      rw [proj_cons_self] at hproj
+      simp only [List.cons.injEq] at hproj
+      obtain ⟨hs, hrest⟩ := hproj
+      subst hs
+      simp only [runWorld]
+      rw [obsOf_step_self]
+      have hinv' := InvE_step impl hf he hc w q (.enter p) hinv
+      have hstep : stepWorld impl w q (.enter p) =
+          ({ heap := w.heap ++ [0],
+             base := upd w.base q (some (.batch w.heap.length ::
+               parentCtx w p)),
+             cur := upd w.cur q none }, none) := by
+        simp [stepWorld, he, newBatchContext_fresh impl hf]
+      rw [hstep] at hinv' ⊢
+      simp only [Option.toList_none, List.nil_append]
+      rw [runWorld_entry impl hf he hc q rest _ ps hinv' (by simp [holder]) (by simpa using hws) hrest]
+      simp [baseVal, holder]
+    · rw [proj_cons_ne r q s rest hq] at hproj
+      simp only [runWorld]
+      rw [obsOf_step_other r q _ _ hq]
+      exact ih _ (InvE_step impl hf he hc w q s hinv) hproj
 
 /-! ### merges -/
 
